@@ -22,6 +22,7 @@ from vcommon import MachineryError
 sys.path.insert(0, os.path.join(vcommon.VERIF, "engines", "encspace"))
 import arm64_gen as G      # noqa: E402
 import arm64_sem as SEM    # noqa: E402
+import arm64_twin as TWIN  # noqa: E402
 
 LLVM = "/usr/bin/llvm-mc"
 MATTR = "+lse,+v8.1a"
@@ -84,17 +85,18 @@ def main(tier):
         t_build = time.time() - t0
         plan = os.path.join(scratch, "plan.txt")
         report = os.path.join(scratch, "report.json")
-        G.write_plan(plan, joined, enums, tier, LLVM, MATTR, scratch, vcommon.NCPU)
+        only = set(filter(None, os.environ.get("VERIF_C08_ONLY", "").split(","))) or None   # development aid
+        G.write_plan(plan, joined, enums, tier, LLVM, MATTR, scratch, vcommon.NCPU, only=only)
         t1 = time.time()
         rep = run_driver(binary, plan, report)
         t_drv = time.time() - t1
         t2 = time.time()
-        sstats, sfind, ssamples = SEM.check_all(report + ".seq", enums["Cond"], LLVM, MATTR, scratch)
+        sstats, sfind, ssamples = SEM.check_all(report + ".seq", enums["Cond"], LLVM, MATTR, scratch, workers=vcommon.NCPU)
         t_sem = time.time() - t2
 
         # ---- violations
         for key, f in sorted(rep["findings"].items()):
-            m = key.split(":")[1] if key.count(":") == 2 else "::".join(key.split(":")[1:-1])
+            m = key[4:key.rindex(":")]
             e = by_name.get(m)
             ex = f["examples"][0]
             what = "%s(%s): dora emits %s = `%s`; requested `%s`; reference: %s  (%d cases)" % (
@@ -105,7 +107,7 @@ def main(tier):
                  "dora_word_disassembly": x["disasm"], "expected_text": x["expected"], "reference": x["llvm"]}
                 for x in f["examples"]], "repo": repo})
         for key, f in sorted(sfind.items()):
-            m = key.split(":")[1]
+            m = key[4:key.rindex(":")]
             e = by_name.get(m)
             ex = f["examples"][0]
             what = "%s(%s): %s; emitted %s = `%s`  (%d cases)" % (
@@ -114,6 +116,11 @@ def main(tier):
             c.violation(key, what, {"method": m, "cases": f["count"], "examples": [
                 {"operands": pretty_ops(e, x["ops"], enums) if e else x["ops"], "ops": x["ops"], "dora_words": x["words"],
                  "disassembly": x["disasm"], "what": x["what"]} for x in f["examples"]], "repo": repo})
+
+        # ---- Dora twin
+        t3 = time.time()
+        twin = TWIN.run(c, tier, scratch, repo, binary, parsed, joined, LLVM, MATTR, pretty_ops, only=only)
+        t_twin = time.time() - t3
 
         # ---- coverage
         per_method = {}
@@ -154,6 +161,8 @@ def main(tier):
             sem_nontrivial += s["nontrivial"]
             sem_refused += s["refused"]
         declared_missing = [e["name"] for e in joined["covered"] if e["name"] not in per_method]
+        if only:
+            c.coverage_restricted = sorted(only)
         if declared_missing:
             complete = False
         picks = ["add_ext", "and_imm", "ldur", "stp_pre", "tbz", "casal", "ubfm_w", "fcvtzs_wd"]
@@ -169,8 +178,8 @@ def main(tier):
                 samples.append({"method": s["method"], "operands": pretty_ops(by_name[s["method"]], s["ops"], enums),
                                 "words": s["words"], "disassembly_of_dora_words": s["disasm"]})
         c.coverage = {
-            "evaluations": evaluations + sem_cases,
-            "distinct_nontrivial": nontrivial + sem_nontrivial,
+            "evaluations": evaluations + sem_cases + twin.get("cases", 0),
+            "distinct_nontrivial": nontrivial + sem_nontrivial + twin.get("distinct_nontrivial", 0),
             "rule": "case = (public method of AssemblerArm64, operand tuple); every method's declared operand space is a "
                     "union of cartesian products of explicit value lists (registers R0..R30+REG_ZERO+REG_SP, neon 0..31 "
                     "+ the non-constructible 32, every enum variant, immediates/offsets/shift amounts at both ends of "
@@ -182,7 +191,7 @@ def main(tier):
                     "equal; llvm-mc disassembles dora's word and re-assembles it (round trip); panic = refusal, demanded "
                     "for every tuple outside the encodable set (spec predicate or llvm-mc rejects the text).",
             "samples": samples,
-            "exhaustive": bool(complete),
+            "exhaustive": bool(complete and twin.get("complete", True)),
             "methods_parsed": len(parsed["methods"]) + len(parsed["others"]),
             "methods_covered": len(joined["covered"]),
             "uncovered": ["%s (%s)" % u for u in joined["uncovered"]],
@@ -201,9 +210,13 @@ def main(tier):
             "llvm_runs": rep["llvm_runs"],
             "per_method_cases": per_method,
             "notes": notes,
+            "dora_twin": twin,
             "time_build_s": round(t_build, 1), "time_driver_s": round(t_drv, 1), "time_semantic_s": round(t_sem, 1),
+            "time_twin_s": round(t_twin, 1),
             "repo": repo,
         }
+        if only:
+            c.coverage["restricted_to_methods"] = sorted(only)
         if joined["uncovered"]:
             for n, why in joined["uncovered"]:
                 c.violation("c08:%s:uncovered" % n, "public function %s of arm64.rs has no usable spec entry: %s" % (n, why),
